@@ -268,9 +268,9 @@ theorem baseLookups_default {i : Input} {al : AList} (hg : i.group = false) (fea
    MC_top, then lexicographic); the anchors being the last source anchors of those names on each glyph (`odSet`).
    PROVED below: the mark-to-base lookups of any ONE feature in the default mode, stated on the anchor lists `al` =
    `_getAnchorLists` (a function of the input alone: `anchorLists i = .ok al`), and all lookups of the `mark` feature
-   (C06_candidate_order_mark_partial).  MISSING: groupMarkClasses mode (the winner then
-   depends on the greedy colouring), mark-to-ligature and mark-to-mark lookups, the composition across features / kinds of
-   `P.lookups`, and the restatement on source anchors. -/
+   (C06_candidate_order_mark_partial); mark-to-ligature lookups per component in C06OrderLig.lean, mark-to-mark lookups in
+   C06OrderMkmk.lean.  MISSING: groupMarkClasses mode (the winner then depends on the greedy colouring), the composition across
+   features / kinds of `P.lookups`, and the restatement on source anchors. -/
 /-- **C06_candidate_order_base_partial** (mark-to-base, default mode, one feature): when several anchor keys match the pair (b, m), the
     mark-to-base lookups of a feature (glyph filter `inc`, anchor filter `mf`: abvm = above marks, blwm = below marks, mark = all)
     attach `m` through the pair whose key is the GREATEST among the matching keys that pass the anchor filter — at exactly
